@@ -58,6 +58,8 @@ ZOO_SCALARS = [
     # 3.11: 14.0, 3.12: 15.0, 3.13: 15.1/16.0)
     "'\\ud800\\U0001fa70'", "'\\udc80\\U0001fad0'", "'\\U0001fae0\\udfff'", "'\\ud800 \\U0001fae8 \\u0cf3'", "'\\udc00\\U0001fae9'",
     "'caf\\xe9 \\udc80.txt'", "'\\U0001fad0'", "'\\U0001fae9 \\u1c89'",
+    # strings equal to the tag names of the JSON encoding (a codec that confuses membership with key lookup)
+    "'int'", "'float'", "'string'", "'type'", "'real'", "'imag'", "'bytes'", "'frozenset'", "'ellipsis'", "'constant'", "'filename'", "'nan'", "'inf'",
     # a lone surrogate in a string that begins/ends with quote characters or backslashes
     "'\\udc80\\''", "'\\'\\udc80'", "'\"\\udc80\"'", "'\\'\\udc80\"'", "'\\udc80\\\\'", "'\\\\\\udc80'", "'\\'\\'\\udc80\\'\\''",
 ]
